@@ -1,7 +1,7 @@
 #!/bin/sh
 # usage: [MUTDIR=/tmp/mut2 WAVE=2 FORCE=1] batch_seeds.sh C01 C03 ...
 # Evaluates <MUTDIR>/<id>/mut{A,B}.diff with demo{A,B}.py against the check of that property.
-# Wave 1 seeds are stored as <id>-A/-B, wave 2 as <id>-C/-D, wave 3 as -E/-F, wave 4 as -G/-H, wave 5 as -I/-J, wave 6 as -K/-L.
+# Wave 1 seeds are stored as <id>-A/-B, wave 2 as <id>-C/-D, wave 3 as -E/-F, wave 4 as -G/-H, wave 5 as -I/-J, wave 6 as -K/-L, wave 7 as -M/-N.
 cd "$(dirname "$0")/.."
 MUTDIR=${MUTDIR:-/tmp/mut}
 WAVE=${WAVE:-1}
@@ -15,6 +15,7 @@ for id in "$@"; do
     if [ "$WAVE" = "4" ]; then [ "$s" = "A" ] && t=G || t=H; fi
     if [ "$WAVE" = "5" ]; then [ "$s" = "A" ] && t=I || t=J; fi
     if [ "$WAVE" = "6" ]; then [ "$s" = "A" ] && t=K || t=L; fi
+    if [ "$WAVE" = "7" ]; then [ "$s" = "A" ] && t=M || t=N; fi
     [ -d seeded/$id-$t ] && [ -z "$FORCE" ] && { echo "$id-$t already stored"; continue; }
     out=$(python3 tools/keep_seed.py $id-$t $p $d - ${CHECKS:-$id} 2>&1 | grep -v conda)
     echo "== $id-$t: $(echo "$out" | tail -1)"
